@@ -247,4 +247,16 @@ theorem parseUint0_eq_readNat (r : Str) (h : ∀ c cs, r ≠ '0' :: c :: cs) : p
     rw [parseUint0_of_head c _ hc, readBase10_eq]; rfl
 
 
+theorem showInt_free (i : Int) (c : Char) (hm : c ≠ '-') (hc : ∀ d, d < 10 → c ≠ digitChar d) : c ∉ showInt i := by
+  cases i with
+  | ofNat n => simpa [showInt] using showNat_free n c hc
+  | negSucc n =>
+    simp only [showInt, List.mem_cons, not_or]
+    exact ⟨hm, showNat_free (n + 1) c hc⟩
+
+theorem comma_not_digit : ∀ d, d < 10 → ',' ≠ digitChar d := by
+  intro d hd
+  have : d = 0 ∨ d = 1 ∨ d = 2 ∨ d = 3 ∨ d = 4 ∨ d = 5 ∨ d = 6 ∨ d = 7 ∨ d = 8 ∨ d = 9 := by omega
+  rcases this with rfl | rfl | rfl | rfl | rfl | rfl | rfl | rfl | rfl | rfl <;> decide
+
 end KinModel.Style
